@@ -133,13 +133,18 @@ fn handle<BIn>(req: &mut Request<BIn>) -> Option<ValidateSNIError> {
     let span = tracing::Span::current();
 
     // Grab (and own) the host header value
-    let host: Option<Authority> = if req.version() == http::Version::HTTP_2 {
-        req.uri().authority().cloned()
-    } else {
+    let host_header = |req: &Request<BIn>| -> Option<Authority> {
         req.headers()
             .get(header::HOST)
             .and_then(|h| h.to_str().ok())
             .and_then(|s| s.parse().ok())
+    };
+
+    // HTTP/2 names the host in the `:authority` pseudo-header, but may carry a Host header instead.
+    let host: Option<Authority> = if req.version() == http::Version::HTTP_2 {
+        req.uri().authority().cloned().or_else(|| host_header(req))
+    } else {
+        host_header(req)
     };
 
     // Grab the TLS connection info
